@@ -492,6 +492,20 @@ class String(Terminal):
         gen.writeln("# </String>")
 
 
+def ascii_insensitive_pattern(value: str) -> str:
+    """Return a regex pattern matching `value`, ignoring the case of ASCII letters.
+
+    Like pest, a case insensitive literal only ignores ASCII case: `^"ss"`
+    does not match "ß" and `^"k"` does not match the Kelvin sign.
+    """
+    return "".join(
+        f"[{ch.upper()}{ch.lower()}]"
+        if ch.isascii() and ch.isalpha()
+        else re.escape(ch)
+        for ch in value
+    )
+
+
 class CIString(Terminal):
     """A terminal string literal that matches case insensitively."""
 
@@ -501,7 +515,11 @@ class CIString(Terminal):
         super().__init__(None)
         # TODO: unescape value
         self.value = value
-        self._re = re.compile(re.escape(value), re.I)
+        self._re = re.compile(self.pattern())
+
+    def pattern(self) -> str:
+        """Return a regex pattern matching this literal, ignoring ASCII case."""
+        return ascii_insensitive_pattern(self.value)
 
     def __str__(self) -> str:
         # TODO: replace non-printing characters with \u{XXXX} escape sequence
@@ -524,8 +542,7 @@ class CIString(Terminal):
         """Emit Python code for a case insensitive string literal."""
         gen.writeln("# <CIString>")
 
-        pattern = re.escape(self.value)
-        re_var = gen.constant("RE", f"re.compile({pattern!r}, re.I)")
+        re_var = gen.constant("RE", f"re.compile({self.pattern()!r})")
 
         gen.writeln(f"if match := {re_var}.match(state.input, state.pos):")
         with gen.block():
